@@ -53,8 +53,21 @@ def _b(x):
     return bool(x)
 
 
+def _lazy(xs, stop):
+    """evaluate zero-argument callables left to right, stopping at a concrete `stop` value"""
+    out = []
+    for x in _flat(xs):
+        if callable(x) and not isinstance(x, z3.ExprRef):
+            x = x()
+        x = _b(x) if not isinstance(x, (list, tuple)) else x
+        out.append(x)
+        if x is stop:
+            break
+    return out
+
+
 def And(*xs):
-    xs = [_b(x) for x in _flat(xs)]
+    xs = [_b(x) for x in _flat(_lazy(xs, False))]
     if any(x is False for x in xs):
         return False
     sym = [x for x in xs if x is not True]
@@ -66,7 +79,7 @@ def And(*xs):
 
 
 def Or(*xs):
-    xs = [_b(x) for x in _flat(xs)]
+    xs = [_b(x) for x in _flat(_lazy(xs, True))]
     if any(x is True for x in xs):
         return True
     sym = [x for x in xs if x is not False]
@@ -96,6 +109,11 @@ def Not(x):
 
 def Implies(a, b):
     a = _b(a)
+    if callable(b) and not isinstance(b, z3.ExprRef):
+        # lazy consequent: not evaluated when the antecedent is concretely false
+        if a is False:
+            return True
+        b = b()
     b = _b(b)
     if a is False or b is True:
         return True
@@ -287,6 +305,13 @@ def ExistsInt(lo, hi, f, name="e"):
 
 
 _ctr = [0]
+_gctr = [0]
+
+
+def global_fresh(prefix):
+    """a name never reused inside this process (for z3 function definitions, which are context-global)"""
+    _gctr[0] += 1
+    return "%s!g%d" % (prefix, _gctr[0])
 
 
 def _fresh(prefix):
